@@ -19,6 +19,7 @@ pub fn make(spec: &JobSpec, ex: &mut Executor, out: &mut JobResult) -> Option<Bo
     match spec.kind.as_str() {
         "size_sweep" => SizeSweep::new(spec, ex, out).map(|j| Box::new(j) as Box<dyn Job>),
         "history" => History::new(spec, ex, out).map(|j| Box::new(j) as Box<dyn Job>),
+        "other_faults" => OtherFaults::new(spec, ex, out).map(|j| Box::new(j) as Box<dyn Job>),
         "payload" => Payload::new(spec).map(|j| Box::new(j) as Box<dyn Job>),
         "single" => Single::new(spec, ex, out).map(|j| Box::new(j) as Box<dyn Job>),
         k => {
@@ -179,6 +180,65 @@ impl Job for SizeSweep {
             }
         } else if self.first_pass.is_none() {
             self.first_pass = Some(l);
+        }
+    }
+}
+
+// ------------------------------------------------------------------ every other violation kind
+
+/// "also after a run that ended in any violation": the call budget, depth, recursion, search and time limits
+/// and output failures placed at their trip points (as in C06's sweeps), judged by the conservation model
+/// only: the total balances, returns to its baseline once the results are dropped, and a rerun is unharmed.
+struct OtherFaults {
+    base: Base,
+    points: Vec<crate::sweep::Point>,
+}
+
+impl OtherFaults {
+    fn new(spec: &JobSpec, ex: &mut Executor, out: &mut JobResult) -> Option<Self> {
+        use crate::sweep::Kind;
+        let mut sc = scenario_from_params(spec)?;
+        sc.ops = super::c06::rerun_ops();
+        let base = prepare_base(P, P, &sc, ex, out)?;
+        let max = spec.params.get("max_points").and_then(|v| v.as_u64()).unwrap_or(24) as usize;
+        let (points, _) = crate::sweep::points(&base, &[Kind::Calls, Kind::Depth, Kind::Recursion, Kind::Search, Kind::Time, Kind::Writer], max, spec.seed);
+        out.count("fault_points", points.len() as u64);
+        Some(OtherFaults { base, points })
+    }
+}
+
+impl Job for OtherFaults {
+    fn len(&self) -> usize {
+        self.points.len()
+    }
+    fn scenario(&mut self, i: usize) -> Scenario {
+        self.points[i].scenario.clone()
+    }
+    fn judge(&mut self, i: usize, sc: &Scenario, r: Exec, out: &mut JobResult) {
+        let Exec::Run(r) = r else { return };
+        out.absorb_run(&r);
+        for f in o_crash(&r) {
+            out.violate(violation(P, P, f, sc));
+        }
+        for f in o_balance(&r) {
+            out.violate(violation(P, P, f, sc));
+        }
+        // once a run's results are dropped the total is back at the value it had after instantiation
+        let baseline = r.ops.first().map(|o| o.accounted);
+        for (k, op) in sc.ops.iter().enumerate() {
+            if matches!(op, HostOp::DropAllResults) {
+                if let (Some(b), Some(res)) = (baseline, r.ops.get(k)) {
+                    if res.accounted != b && matches!(r.ops.first().map(|o| &o.outcome), Some(Outcome::Unit)) {
+                        out.violate(violation(P, P, ("residue".into(), format!("accounted total does not return to its baseline after a run that ended in a {} fault", self.points[i].kind.name()), format!("host op {k}: {} instead of {b}", res.accounted)), sc));
+                        break;
+                    }
+                }
+            }
+        }
+        if r.ops.iter().any(|o| o.outcome.violation_kind().is_some()) {
+            out.probe("balanced_after_other_violation");
+            let vk = r.ops.iter().find_map(|o| o.outcome.violation_kind()).unwrap_or("none").to_string();
+            out.tuples.insert(format!("{}|{}|{}", self.base.sc.label, self.points[i].kind.name(), vk));
         }
     }
 }
@@ -385,6 +445,9 @@ impl Payload {
                     (format!("chain-of-many-parts{n}"), format!("let v_src = [1, 2, 3];\nfn v_mk()->Sequence<int>{{ range({n}).reduce(v_src, (v_acc: Sequence<int>, v_i: int)->{{ v_acc + v_src }}) }}"), 8 * n),
                     (format!("stack-from-sequence{n}"), format!("let v_src = range({n}).to_array();\nfn v_mk()->Stack<int>{{ v_src.to_stack() }}"), 8 * n),
                     (format!("array-from-generator{n}"), format!("let v_src = range({n}).to_array();\nfn v_mk()->Sequence<int>{{ v_src.to_generator().to_array() }}"), 8 * n),
+                    // many small native values: each one's own representation (the sequence header) is part of what is alive
+                    (format!("many-one-element-arrays{n}"), format!("fn v_mk()->Sequence<Sequence<int>>{{ range({n}).map((v_i: int)->{{ [v_i] }}).to_array() }}"),
+                        n * (std::mem::size_of::<xray::builtin::sequence::XSequence<crate::world::SimWriter, crate::world::SimRng, crate::world::SimClock>>() + 8) + 8 * n),
                     (format!("array-of-shared{n}"), format!("let v_src = range({n}).to_array();\nfn v_mk()->Sequence<int>{{ v_src.map((v_x: int)->{{v_x}}).to_array() }}"), 8 * n),
                 ]
             } else {
